@@ -182,8 +182,12 @@ pub fn run(tier: &str) -> i32 {
         let mut overlapping = 0u64;
         let mut count = 0u64;
         for j in 0..n {
-            for (s1, s2) in [(":0.5", ":0.25"), ("", ":0.5")] {
+            for (s1, s2) in [(":0.5", ":0.25"), ("", ":0.5"), (":0", ""), (":1", "")] {
                 if !thorough && s1.is_empty() && (i + j) % 4 != 0 {
+                    continue;
+                }
+                // an integer weight followed by a token that may consist of digits only ('AA:0,55')
+                if s1.len() == 2 && !(thorough || pool[j].shape == "XX" || (i + j) % 7 == 0) {
                     continue;
                 }
                 count += 1;
